@@ -642,7 +642,7 @@ def _fermat_path(arim, n, m):
 def u_arr(arim, rng, a=None, family="random"):
     tfm = arim.im.tfm
     if a is None:
-        m, p = (int(v) for v in rng.choice([0, 1, 1, 2, 2, 3, 4], size=2))
+        m, p = (int(v) for v in rng.choice([0, 1, 2, 2, 3, 3, 4, 5], size=2))
         a = rng.integers(-30, 31, size=(m, p)).astype(float)
         if rng.random() < 0.5:
             a = np.asfortranarray(a)
@@ -773,8 +773,9 @@ def gen_pairs(rng, ntx, nrx=None, pow2=False):
     if rng.random() < 0.4:
         pairs = [pairs[i] for i in rng.permutation(len(pairs))]
         mode += ":permuted"
-    fits = [d for d in INT_DTYPES if max(ntx, nrx) - 1 <= np.iinfo(d).max]
-    dt = fits[int(rng.integers(0, len(fits)))] if rng.random() < 0.5 else np.int64
+    # int64 only: every index dtype is one more numba specialisation of each kernel (about 1 s each); the dtypes of tx / rx are
+    # exercised on default_weights_z (unit cases) and by the main C12 check
+    dt = np.int64
     tx = np.ascontiguousarray(np.array([p[0] for p in pairs], dtype=dt))
     rx = np.ascontiguousarray(np.array([p[1] for p in pairs], dtype=dt))
     return tx, rx, mode
@@ -1398,39 +1399,53 @@ def fixed_pipelines(arim, rec, rng):
 
 
 # ---------------------------------------------------------------------------------------------------------------
-def _bools(raw):
-    m = re.search(r"=\s*\[([^\]]*)\]", raw)
-    return [x.strip() == "true" for x in m.group(1).split(";")] if m and m.group(1).strip() else []
+def _bool_lists(raw):
+    m = re.search(r"=\s*\[(.*)\]\s*:\s*list \(list bool\)", raw, flags=re.S)
+    if not m:
+        return []
+    return [[x.strip() == "true" for x in inner.split(";")] if inner.strip() else [] for inner in re.findall(r"\[([^\[\]]*)\]", m.group(1))]
 
 
-def _report(chk, cases, bad, group, imports_extra=""):
-    """one report per (observable, input family), at most 10 per group; the model's answers come from coqc"""
-    seen, emitted = set(), 0
-    for b in bad:
+def _report(chk, cases, bad, group):
+    """which observables disagree on the first disagreeing cases (one coqc call), then one report per (function, observable),
+    at most 6 per group, each with the model's answers computed by coqc"""
+    if not bad:
+        return
+    shown = bad[:40]
+    is_p = cases[shown[0]].tag == "P"
+    typ, fn = ("pcase", "p_checks") if is_p else ("ucase", "u_checks")
+    try:
+        raw = chk.coq_values(f"tie_C12_which_{group}", COQ_IMPORTS + f"Definition cs : list {typ} := [\n" + ";\n".join(cases[b].lit for b in shown) + "].\n",
+                             [f"map {fn} cs"])
+        flags = _bool_lists(raw)
+    except RuntimeError:
+        flags = []
+    if len(flags) != len(shown):
+        flags = [[] for _ in shown]
+    seen = {}
+    for b, fl in zip(shown, flags):
         c = cases[b]
-        fam = ":".join(c.family.split(":")[:2])
-        if (c.tag, fam) in seen or emitted >= 10:
+        names = P_OBS if is_p else U_OBS[c.tag]
+        failing = [names[k] if k < len(names) else f"check {k}" for k, ok in enumerate(fl) if not ok] or ["case"]
+        who = c.info.get("function", c.tag) if is_p else c.tag
+        key = f"tie:{who}:{failing[0].split(' ')[0]}"
+        if key in seen or len(seen) >= 6:
             continue
-        seen.add((c.tag, fam))
-        emitted += 1
+        seen[key] = True
         try:
-            if c.tag == "P":
+            if is_p:
                 raw = chk.coq_values(f"tie_C12_diag_{group}_{b}", COQ_IMPORTS + f"Definition c0 : pcase := {c.lit}.\n", c.exprs)
-                names = P_OBS
             else:
                 raw = chk.coq_values(f"tie_C12_diag_{group}_{b}", COQ_IMPORTS, [f"u_checks ({c.lit})"] + c.exprs)
-                names = U_OBS[c.tag]
-            flags = _bools(raw)
-            failing = [names[k] if k < len(names) else f"check {k}" for k, ok in enumerate(flags) if not ok] or ["case"]
             model = " ".join(raw.split())[:6000]
         except RuntimeError as e:       # the diagnostic file itself does not compile: still a disagreement
-            failing, model = ["case"], f"(diagnostics unavailable: {str(e)[-300:]})"
-        who = c.info.get("function", c.tag) if c.tag == "P" else c.tag
-        chk.violation(f"tie:{who}:{failing[0].split(' ')[0]}",
+            model = f"(diagnostics unavailable: {str(e)[-300:]})"
+        chk.violation(key,
                       f"tie C12: the glue model (Model/TfmGlue.v) and arim disagree on {', '.join(failing)} "
                       f"(input family {c.family}; {len(bad)} of {len(cases)} {group} cases disagree in this run)",
                       dict(c.info, input_family=c.family, disagreeing_observables=failing, correspondence=c.corr,
-                           model_answers=model, case_number=b, disagreeing_case_numbers=bad[:200], coq_case=c.lit[:20000]),
+                           model_answers=model, case_number=b, disagreeing_case_numbers=bad[:200],
+                           disagreeing_families=sorted({cases[x].family for x in bad})[:60], coq_case=c.lit[:20000]),
                       failing_input_found=False)
 
 
@@ -1471,7 +1486,7 @@ def run(chk, arim, rng, quick):
     finally:
         numba.set_num_threads(old_threads)
     for c in units + pipes:
-        chk.count(tie_C12=c.family)
+        chk.count(tie_C12=":".join(c.family.split(":")[:3]))
     never_run = sum(1 for c in pipes if c.info["arim"]["outcome"].startswith("shape drift"))
 
     ubad = chk.coq_failing("tie_C12_unit", COQ_IMPORTS, "ucase", [c.lit for c in units], "check_u", shard=120, jobs=8)
